@@ -159,7 +159,7 @@ def _touch_current(bdir):
         pass
 
 
-def _gc(keep, maxkeep=2):
+def _gc(keep, maxkeep=6):
     ds = []
     for d in os.listdir(ROOT):
         p = os.path.join(ROOT, d)
